@@ -80,7 +80,7 @@ type unit struct {
 	ret, mut          string  // scalar result type code ("" = none); name of the mutated slice parameter
 }
 
-func (u *unit) key() string  { return strings.TrimSpace(u.mode + " " + u.fn + " " + u.arg) }
+func (u *unit) key() string { return strings.TrimSpace(u.mode + " " + u.fn + " " + u.arg) }
 func (u *unit) name() string {
 	if u.as != "" {
 		return u.as
